@@ -899,3 +899,88 @@ Proof.
   - intros e [].
   - exact mx_disciplined_step_no_error.
 Qed.
+
+(* no unlock of the recursive mutex is lost: stuck with the underlying mutex free => nobody is blocked in lock() *)
+Lemma rmx_no_lost_unlock : forall progs sched,
+  let c := rmx_run sched progs in
+  rmx_stuck (fst c) (snd c) -> owner (gu (fst c)) = None ->
+  forall t, ~ rmx_blocked_in_lock (fst c) (snd c t) t.
+Proof.
+  intros progs sched c Hst Ho t [_ [Hp Hb]].
+  pose proof (rmx_reach_inv progs sched) as I. fold (rmx_run sched progs) in I. fold c in I.
+  destruct I as [Iu _ _ It].
+  destruct (i_b _ _ Iu t Hb) as [_ Hin].
+  destruct (i_k _ _ Iu Ho) as [Hq | [w [Hw1 Hw2]]]; [rewrite Hq in Hin; exact Hin|].
+  unfold uls_of in Hw2.
+  destruct (Hst w) as [[Hc Htd] | [_ [Hc Hbw]]].
+  - pose proof (It w) as Pw. unfold rg_tinv in Pw. rewrite Hc in Pw. destruct Pw as [Hi _].
+    apply mx_uidle_true in Hi. destruct Hi as [Hi _]. contradiction.
+  - destruct (i_b _ _ Iu w Hbw) as [_ Hinw]. contradiction.
+Qed.
+
+(* with balanced programs (whoever finished has released every level) a stuck state is a finished state: no task is
+   left blocked in lock() of the recursive mutex *)
+Lemma rmx_stuck_balanced_all_done : forall progs sched,
+  let c := rmx_run sched progs in
+  rmx_stuck (fst c) (snd c) -> (forall t, rmx_finished (snd c t) -> gdepth (snd c t) = 0) ->
+  forall t, rmx_finished (snd c t).
+Proof.
+  intros progs sched c Hst Hbal t.
+  pose proof (rmx_reach_inv progs sched) as I. fold (rmx_run sched progs) in I. fold c in I.
+  assert (Ho : owner (gu (fst c)) = None).
+  { destruct (owner (gu (fst c))) as [x|] eqn:Ex; [|reflexivity]. exfalso.
+    apply (i_h _ _ (ri_u _ _ _ _ _ _ _ _ _ I) x) in Ex. unfold uls_of in Ex.
+    pose proof (ri_t _ _ _ _ _ _ _ _ _ I x) as Px. unfold rg_tinv, own_or_not in Px.
+    destruct (Hst x) as [[Hc Htd] | [Hc _]]; rewrite Hc in Px.
+    - destruct Px as (_ & _ & Hd0). rewrite Hd0 in Ex; [discriminate|]. apply Hbal. split; assumption.
+    - destruct Px as (_ & Hf & _). congruence. }
+  destruct (Hst t) as [H|H]; [exact H|].
+  exfalso. exact (rmx_no_lost_unlock progs sched Hst Ho t H).
+Qed.
+
+(* [rmx_stuck] is exactly "no task can move": a task that has neither finished nor is blocked in lock()'s suspend
+   changes the state with its next step, whatever the oracle says *)
+Definition rmx_meas (c : rg_shared mx_shared * rg_local mx_env mx_local) :=
+  (length (mxlog (gu (fst c))), length (g_todo (snd c)), g_pc (snd c), pc (gul (snd c)), length (todo (gul (snd c)))).
+
+Lemma rmx_enabled_unless_stuck : forall o t g (l : rg_local mx_env mx_local),
+  rg_tinv mx_env mx_shared mx_local mx_uidle held mx_uin g t l ->
+  ~ rmx_finished l -> ~ rmx_blocked_in_lock g l t -> rmx_tstep o t g l <> (g, l).
+Proof.
+  intros o t g l P Hnf Hnb H. apply (f_equal rmx_meas) in H. revert H.
+  unfold rmx_finished, rmx_blocked_in_lock, blocked_in_lock in *.
+  unfold rg_tinv, own_or_not in P. unfold rmx_meas, rmx_tstep, rg_tstep, rg_at, rg_call, rg_setu.
+  destruct l as [td p d [utd up uh]]. cbn [g_pc g_todo gdepth gul fst snd pc todo held] in *.
+  destruct p.
+  - destruct P as [Hi _]. apply mx_uidle_true in Hi. cbn in Hi. destruct Hi as [-> ->].
+    destruct td as [|[| | |x] rest]; [exfalso; apply Hnf; auto|..]; cbn [fst snd].
+    + destruct (onat_eqb (gctx g) t); cbn; intros H; inversion H.
+    + destruct (onat_eqb (gctx g) t); cbn; intros H; inversion H.
+    + destruct (Nat.eqb d 0); [|destruct (N.eqb (N.pred (gcount g)) 0)]; cbn; intros H; inversion H; lia.
+    + cbn. intros H; inversion H.
+  - cbn. intros H; inversion H.
+  - cbn in P. destruct P as ([-> Hp] & -> & _). cbn [mx_tstep pc todo held] in *. unfold mx_tstep, lock_loop. cbn [pc todo held].
+    destruct Hp as [->|[->| ->]].
+    + destruct (onat_eqb (owner (gu g)) t); [|destruct (owner (gu g))]; cbn; intros H; inversion H; lia.
+    + cbn. intros H; inversion H.
+    + destruct (blocked (ag (gu g) t)) eqn:Hb; [exfalso; apply Hnb; auto|].
+      destruct (owner (gu g)); cbn; intros H; inversion H; lia.
+  - cbn in P. destruct P as ([-> ->] & -> & _). unfold mx_tstep. cbn [pc todo held].
+    destruct (owner (gu g)); cbn; intros H; inversion H; lia.
+  - cbn. intros H; inversion H.
+  - cbn. intros H; inversion H.
+  - cbn. intros H; inversion H.
+  - cbn in P. destruct P as ([-> ->] & -> & _). unfold mx_tstep, notify_one. cbn [pc todo held].
+    destruct (onat_eqb (owner (gu g)) t); cbn; [destruct (queue (gu g)); cbn|]; intros H; inversion H; lia.
+  - cbn in P. destruct P as ([x [-> ->]] & _). unfold mx_tstep. cbn [pc todo held].
+    destruct x; cbn; [destruct uh; cbn|..]; intros H; inversion H.
+Qed.
+
+Lemma rmx_enabled_unless_stuck_run : forall progs sched o t,
+  let c := rmx_run sched progs in
+  ~ rmx_finished (snd c t) -> ~ rmx_blocked_in_lock (fst c) (snd c t) t ->
+  rmx_tstep o t (fst c) (snd c t) <> (fst c, snd c t).
+Proof.
+  intros progs sched o t c. pose proof (rmx_reach_inv progs sched) as I. fold (rmx_run sched progs) in I. fold c in I.
+  apply rmx_enabled_unless_stuck. exact (ri_t _ _ _ _ _ _ _ _ _ I t).
+Qed.
